@@ -37,12 +37,12 @@ Upper(w) == CASE w = "id" -> "ID" [] w = "msg" -> "MSG" [] w = "tag" -> "Tag" []
               [] w = "logdata" -> "LogData" [] w = "t" -> "T" [] w = "rev" -> "REV" [] w = "ver" -> "Ver" [] w = "nolog" -> "NoLog"
               [] w = "status" -> "STATUS" [] w = "deny" -> "Deny" [] w = "capture" -> "CAPTURE" [] w = "chain" -> "Chain"
               [] w = "setvar" -> "SetVar" [] w = "severity" -> "Severity" [] w = "multimatch" -> "multiMatch"
-              [] w = "block" -> "Block" [] w = "secrule" -> "SECRULE" [] w = "secaction" -> "SecAction" [] OTHER -> w
+              [] w = "block" -> "Block" [] w = "drop" -> "DROP" [] w = "secrule" -> "SECRULE" [] w = "secaction" -> "SecAction" [] OTHER -> w
 Fold(w) == CASE w = "ID" -> "id" [] w = "MSG" -> "msg" [] w = "Tag" -> "tag" [] w = "PASS" -> "pass" [] w = "Phase" -> "phase"
               [] w = "LogData" -> "logdata" [] w = "T" -> "t" [] w = "REV" -> "rev" [] w = "Ver" -> "ver" [] w = "NoLog" -> "nolog"
               [] w = "STATUS" -> "status" [] w = "Deny" -> "deny" [] w = "CAPTURE" -> "capture" [] w = "Chain" -> "chain"
               [] w = "SetVar" -> "setvar" [] w = "Severity" -> "severity" [] w = "multiMatch" -> "multimatch"
-              [] w = "Block" -> "block" [] w = "SECRULE" -> "secrule" [] w = "SecRule" -> "secrule" [] w = "SecAction" -> "secaction" [] OTHER -> w
+              [] w = "Block" -> "block" [] w = "DROP" -> "drop" [] w = "SECRULE" -> "secrule" [] w = "SecRule" -> "secrule" [] w = "SecAction" -> "secaction" [] OTHER -> w
 
 UpperDir(w) == CASE w = "SecMarker" -> "SECMARKER" [] w = "SecRuleRemoveById" -> "secruleremovebyid" [] w = "SecRuleRemoveByTag" -> "SecRuleREMOVEByTag"
                  [] w = "SecRuleEngine" -> "SECRULEENGINE" [] w = "SecRequestBodyLimit" -> "secrequestbodylimit" [] OTHER -> w
